@@ -723,10 +723,11 @@ Section Sim.
                                             ((s =? s1) && gmul D (get (X (s / 8))) (get (X (s mod 8))) i' j'))).
       2:{ intros s _. unfold tb. rewrite N.lor_spec. fold (tb (2 ^ N.of_nat s0) s) (tb (2 ^ N.of_nat s1) s).
           rewrite !tb_pow2, (Nat.eqb_sym s0), (Nat.eqb_sym s1).
-          destruct (Nat.eqb_spec s s0), (Nat.eqb_spec s s1); try reflexivity.
+          destruct (Nat.eqb_spec s s0), (Nat.eqb_spec s s1);
+            try (destruct (gmul D (get (X (s / 8))) (get (X (s mod 8))) i' j'); reflexivity).
           exfalso. unfold s0, s1 in *. lia. }
       rewrite xsum_xor, !xsum_indicator.
-      assert (s0 < 64 /\ s1 < 64) as [L0 L1] by (unfold s0, s1; destruct i as [|[|]]; lia).
+      assert (s0 < 64 /\ s1 < 64) as [L0 L1] by (unfold s0, s1; clearbody i j; lia).
       destruct (Nat.ltb_spec s0 64), (Nat.ltb_spec s1 64); try lia. cbn [andb].
       replace (s0 / 8) with (2 * i + 0) by (unfold s0; rewrite Nat.mul_comm, Nat.div_add_l, Nat.div_small; lia).
       replace (s0 mod 8) with (bidx k 0 j)
